@@ -40,6 +40,8 @@ type Options struct {
 	MaxDepth    int
 	MapRange    bool // range over the single-entry map
 	StateProbes bool // sprinkle state probes ({{.}}, isset, yield content)
+	TargetTry   bool // place exactly one instrumented try statement (C13); probes only inside its body
+	CatchForm   int  // 0: no catch, 1: catch without variable, 2: catch with variable
 }
 
 // SwarmOptions draws a feature subset; index 0 of every choice is the simplest.
@@ -114,15 +116,18 @@ type fileGen struct {
 }
 
 type G struct {
-	T     *sim.Tape
-	O     Options
-	W     *World
-	nText int
-	nVar  int
-	nBlk  int
-	f     *fileGen
-	incs  []string // includable files (already generated)
-	rets  []string // exec targets
+	T            *sim.Tape
+	O            Options
+	W            *World
+	nText        int
+	nVar         int
+	nBlk         int
+	f            *fileGen
+	incs         []string // includable files (already generated)
+	probesOn     bool
+	budget       int // remaining statements in this world (bounds the cost of a run)
+	targetPlaced bool
+	rets         []string // exec targets
 }
 
 func (g *G) emit(s string) {
@@ -204,7 +209,7 @@ func (g *G) strExpr(sc scopeInfo, depth int) string {
 		case 3, 4:
 			return "(" + g.boolExpr(sc, depth+1) + " ? " + g.strExpr(sc, depth+1) + " : " + g.strExpr(sc, depth+1) + ")"
 		case 5:
-			if g.O.Probes && g.O.ProbeExpr {
+			if g.probesOn && g.O.ProbeExpr {
 				return g.probeExpr(sc, true)
 			}
 		case 6:
@@ -276,7 +281,8 @@ func (g *G) list(sc scopeInfo, max int) {
 
 func (g *G) stmt(sc *scopeInfo) {
 	o := g.O
-	deep := sc.depth >= o.MaxDepth
+	g.budget--
+	deep := sc.depth >= o.MaxDepth || g.budget <= 0
 	w := func(on bool, wt int) int {
 		if on {
 			return wt
@@ -284,15 +290,15 @@ func (g *G) stmt(sc *scopeInfo) {
 		return 0
 	}
 	k := g.T.Weighted(
-		4, // 0 text
-		3, // 1 print expr
-		w(o.Probes, 3),   // 2 probe statement
+		4,                // 0 text
+		3,                // 1 print expr
+		w(g.probesOn, 3), // 2 probe statement
 		w(o.Vars, 2),     // 3 let
 		w(o.Vars && len(sc.vars) > 0 && !sc.noLocals, 1), // 4 set
-		w(o.If && !deep, 2),      // 5 if
-		w(o.Range && !deep, 3),   // 6 range
+		w(o.If && !deep, 2),    // 5 if
+		w(o.Range && !deep, 3), // 6 range
 		w(o.Blocks && !deep && sc.depth == 0 && !sc.noLocals, 2), // 7 block definition (top level of a file only)
-		w(o.Blocks && !deep && len(g.f.blocks) > 0, 3),          // 8 yield
+		w(o.Blocks && !deep && len(g.f.blocks) > 0, 3),           // 8 yield
 		w(sc.inBlock, 3), // 9 yield content
 		w(o.Include && !deep && len(g.incs) > 0, 2), // 10 include
 		w(o.Try && !deep, 3),                        // 11 try
@@ -301,6 +307,7 @@ func (g *G) stmt(sc *scopeInfo) {
 		w(o.Comments, 1),                            // 14 comment
 		w(sc.canRet, 1),                             // 15 return
 		w(o.Dump, 1),                                // 16 dump
+		w(o.TargetTry && !g.targetPlaced && sc.inTry == 0 && !sc.canRet && sc.depth > 0, 3), // 17 the instrumented try
 	)
 	switch k {
 	case 0:
@@ -358,6 +365,8 @@ func (g *G) stmt(sc *scopeInfo) {
 		g.act("return " + g.strExpr(*sc, 1))
 	case 16:
 		g.act("dump(9)")
+	case 17:
+		g.targetTry(*sc)
 	}
 }
 
@@ -588,6 +597,45 @@ func (g *G) tryStmt(sc scopeInfo) {
 	g.act("end")
 }
 
+// Mark ids of the instrumented try statement (C13).
+const (
+	MarkTryBegin = 9001
+	MarkTryEnd   = 9002
+	MarkTryBody  = 9003 // first statement of the body: identifies the statement's own buffer
+	SetToken     = "@@SET@@"
+)
+
+// TargetOpen/TargetClose are the exact wrapper strings; removing them gives
+// the twin program in which the body renders outside try.
+const TargetOpen = "{{mark(9001)}}{{try}}{{mark(9003)}}"
+
+func TargetClose(form int) string {
+	switch form {
+	case 1:
+		return "{{catch}}[CATCH]{{end}}{{mark(9002)}}"
+	case 2:
+		return "{{catch e}}[CATCH]{{e.Error()}}{{end}}{{mark(9002)}}"
+	}
+	return "{{end}}{{mark(9002)}}"
+}
+
+// targetTry emits the instrumented try: mark, try, BODY with probes, catch,
+// mark, then state probes of everything the statement must leave untouched.
+func (g *G) targetTry(sc scopeInfo) {
+	g.targetPlaced = true
+	g.emit(TargetOpen)
+	in := sc.child("TARGET")
+	in.inTry++
+	in.vars = nil // the body only declares its own variables (roll-back of outer assignments is not demanded)
+	g.probesOn = true
+	g.list(in, g.O.MaxStmts)
+	// make sure the body has at least one fault point
+	g.act(g.probeExpr(in, false))
+	g.probesOn = false
+	g.emit(TargetClose(g.O.CatchForm))
+	g.emit("<ctx:{{.}}><set:" + SetToken + "><content:{{yield content}}><vars:{{s}}{{n}}>")
+}
+
 // file generates one file with the given role.
 func (g *G) file(path, role string, extends string, imports []string, visible []BlockInfo) {
 	g.f = &fileGen{path: path, blocks: append([]BlockInfo(nil), visible...)}
@@ -604,6 +652,12 @@ func (g *G) file(path, role string, extends string, imports []string, visible []
 	switch role {
 	case "main", "base":
 		g.list(sc, g.O.MaxStmts)
+	case "main-target":
+		g.list(sc, g.O.MaxStmts)
+		if !g.targetPlaced {
+			g.targetTry(sc)
+			g.list(sc, 2)
+		}
 	case "child":
 		// an extending template: only its block definitions matter
 		n := g.T.Range(1, 2)
@@ -671,7 +725,7 @@ func (g *G) blockDefNamed(sc scopeInfo, visible []BlockInfo) {
 // GenWorld builds a world of 1-6 files.
 func GenWorld(t *sim.Tape, o Options) *World {
 	w := &World{Files: map[string]string{}, Opts: o}
-	g := &G{T: t, O: o, W: w}
+	g := &G{T: t, O: o, W: w, probesOn: o.Probes && !o.TargetTry, budget: 30 + 10*t.Choose(4)}
 	// leaves first: exec targets, includes, lib, base, then mains
 	if o.Exec {
 		g.file("/ret0.jet", "ret", "", nil, nil)
@@ -713,7 +767,7 @@ func GenWorld(t *sim.Tape, o Options) *World {
 	nm := t.Range(1, 3)
 	for i := 0; i < nm; i++ {
 		p := fmt.Sprintf("/t%d.jet", i)
-		if len(baseBlocks) > 0 && t.Choose(3) == 2 {
+		if len(baseBlocks) > 0 && t.Choose(3) == 2 && !(o.TargetTry && i == nm-1) {
 			var imps []string
 			if len(libBlocks) > 0 && t.Choose(2) == 1 {
 				imps = []string{"lib/lib0.jet"}
@@ -726,7 +780,11 @@ func GenWorld(t *sim.Tape, o Options) *World {
 				imps = []string{"/lib/lib0.jet"}
 				vis = libBlocks
 			}
-			g.file(p, "main", "", imps, vis)
+			role := "main"
+			if o.TargetTry && i == nm-1 {
+				role = "main-target"
+			}
+			g.file(p, role, "", imps, vis)
 		}
 		w.Mains = append(w.Mains, p)
 	}
@@ -734,5 +792,15 @@ func GenWorld(t *sim.Tape, o Options) *World {
 		w.Mains = append(w.Mains, "/base.jet")
 	}
 	sort.Strings(w.VarNames)
+	if o.TargetTry {
+		var b strings.Builder
+		for _, v := range w.VarNames {
+			fmt.Fprintf(&b, "{{isset(%s)}}", v)
+		}
+		b.WriteString("{{isset(e)}}")
+		for p, src := range w.Files {
+			w.Files[p] = strings.ReplaceAll(src, SetToken, b.String())
+		}
+	}
 	return w
 }
